@@ -6,7 +6,7 @@ import numpy as np
 from xdsl.context import Context
 from xdsl.dialects import arith, builtin, func, linalg, memref
 from xdsl.dialects.memref import MemorySpaceCastOp, SubviewOp
-from xdsl.ir import Attribute, Operation, OpResult
+from xdsl.ir import Attribute, Operation, OpResult, SSAValue
 from xdsl.irdl import Operand
 from xdsl.parser import BytesAttr, DenseIntOrFPElementsAttr, MemRefType
 from xdsl.passes import ModulePass
@@ -31,6 +31,14 @@ from snaxc.ir.tsl.tiled_strided_layout import TiledStridedLayout
 
 def is_cast_op(op: Operation) -> bool:
     return isinstance(op, MemorySpaceCastOp) or isinstance(op, LayoutCast)
+
+
+def has_real_users(value: SSAValue) -> bool:
+    """
+    True if the value is used by something else than casts that are (transitively) unused.
+    Such dead casts are left in place by this pass; they neither read nor write the buffer.
+    """
+    return any(not is_cast_op(use.operation) or has_real_users(use.operation.results[0]) for use in value.uses)
 
 
 def transform_constant(source: DenseIntOrFPElementsAttr, dest_layout: Attribute) -> DenseIntOrFPElementsAttr | None:
@@ -474,7 +482,7 @@ class RealizeMemrefCasts(RewritePattern):
     def match_and_rewrite(self, op: MemorySpaceCastOp | LayoutCast, rewriter: PatternRewriter):
         # if the casting is not used anymore (perhaps made useless by previous
         # cast realizations), we do not need to do anything. dce will remove it later
-        if not op.dest.uses:
+        if not has_real_users(op.dest):
             return
 
         # due to previous passes, it is common for multiple memref casting
@@ -534,7 +542,11 @@ class RealizeMemrefCasts(RewritePattern):
 
         # Insert copy ops if newly allocated memref is used as
         # input or output, list to visit all uses of allocated memrefs:
-        uses = [x.operation for x in op.dest.uses]
+        uses = [
+            x.operation
+            for x in op.dest.uses
+            if not is_cast_op(x.operation) or has_real_users(x.operation.results[0])
+        ]
 
         def in_cast_block(use_op: Operation) -> Operation:
             # the op of the cast's block that contains the use (the use itself, or e.g. the loop around it)
